@@ -297,7 +297,7 @@ func (p *c10) Exec(x *Exec, ci interface{}) *Verdict {
 				recBad = fmt.Sprintf("more than the %d original records returned (extra %q)", len(s.recs), rec.Name)
 				break
 			}
-			if ht, _ := h.MarshalText(); nrec == 0 && string(ht) != s.hdr.Text() {
+			if ht, _ := h.MarshalText(); nrec == 0 && NormHeaderText(string(ht)) != NormHeaderText(s.hdr.Text()) {
 				recBad = "header differs from the original although NewReader succeeded"
 				break
 			}
